@@ -12,7 +12,7 @@ AvaSet == IF AvaChoice = "small" THEN AvasSmall ELSE AvasBig
 MCMutators == \/ \E s \in Subj, i \in Src, a \in AvaSet, e \in Exps : Set(s, i, a, e)
               \/ \E s \in Subj, i \in Src : Reset(s, i)
               \/ \E s \in Subj : Delete(s)
-              \/ Tick
+              \/ Tick \/ Reopen
 MCNext == MCMutators \/ Queries
 MCSpec == Init /\ [][MCNext]_vars
 
